@@ -4,6 +4,8 @@ package account
 
 import (
 	"bytes"
+	crand "crypto/rand"
+	"errors"
 	"math/rand"
 	"os"
 	"path/filepath"
@@ -62,6 +64,49 @@ func ZZ_C38_keystore() {
 		return
 	}
 	nd.Reach("created")
+	nd.Assert(nd.FromSecureSourceOnly(c.masterKey), "master_key_comes_from_the_secure_source_only")
+	nd.Assert(nd.FromSecureSourceOnly(c.iv), "iv_comes_from_the_secure_source_only")
+}
+
+type zzFailReader struct{}
+
+func (zzFailReader) Read(b []byte) (int, error) {
+	return 0, errors.New("operating system random source unavailable")
+}
+
+// ZZ_C38_keystore_osfail: the same when the operating system's generator
+// cannot be read (crypto/rand.Reader replaced by a reader that always fails):
+// either no keystore is created, or its master key and IV still do not depend
+// on an insecure source. Native demonstration of a dependence: seeding the
+// process-global math/rand source with the same value before two creations
+// yields the same master key and IV.
+func ZZ_C38_keystore_osfail() {
+	old := crand.Reader
+	crand.Reader = zzFailReader{}
+	defer func() { crand.Reader = old }()
+	if !nd.Symbolic() {
+		mk := func() *Client {
+			dir, _ := os.MkdirTemp("", "zzverif-ks-")
+			defer os.RemoveAll(dir)
+			rand.Seed(777)
+			return NewClient(filepath.Join(dir, "keystore.dat"), []byte("pw"), true)
+		}
+		a, b := mk(), mk()
+		if a == nil || b == nil {
+			return
+		}
+		nd.Assert(!bytes.Equal(a.masterKey, b.masterKey), "master_key_comes_from_the_secure_source_only")
+		nd.Assert(!bytes.Equal(a.iv, b.iv), "iv_comes_from_the_secure_source_only")
+		return
+	}
+	nd.Stub("(*account.FileStore).BuildDatabase")
+	nd.Stub("(*account.FileStore).SaveStoredData")
+	nd.Stub("crypto.AesEncrypt")
+	c := NewClient("keystore.dat", []byte("pw"), true)
+	nd.Reach("decided")
+	if c == nil {
+		return
+	}
 	nd.Assert(nd.FromSecureSourceOnly(c.masterKey), "master_key_comes_from_the_secure_source_only")
 	nd.Assert(nd.FromSecureSourceOnly(c.iv), "iv_comes_from_the_secure_source_only")
 }
